@@ -37,7 +37,9 @@ import (
 )
 
 type VerifInst struct {
-	Kind     string `json:"kind"` // bulk | chunk | periodical | bag | <foreign>
+	Kind     string `json:"kind"` // bulk | chunk | periodical | bag | agg | <foreign>
+	Shape    string `json:"shape"` // agg: the Go type of a batch (verif_c11_agg.go)
+	Empty    string `json:"empty"` // agg: what RemoveAll returns when nothing was added: nil | zero | mark
 	Maxw     int    `json:"maxw"`
 	Interval int64  `json:"interval"`
 	Nclients int    `json:"nclients"`
@@ -80,6 +82,8 @@ type VerifOut struct {
 	// proc.Shutdown() was started by a "shutdown" action / had returned at the end of the history
 	ShutStarted bool `json:"shut_started"`
 	ShutDone    bool `json:"shut_done"`
+	// per instance: every value RemoveAll handed out (not recorded for foreign kinds)
+	Removed [][]VerifRemoved `json:"removed"`
 }
 
 // VerifHooks is what the controller needs from an instance.
@@ -93,6 +97,7 @@ type VerifHooks struct {
 	Size  func() int       // accumulated weight; called with the executor's lock held
 	// optional admission control for foreign kinds (calls that would block outside the executor)
 	CanAdd       func() bool
+	CanAddTask   func(id int64, w int) bool
 	FlushVariant func(variant int, anyBusy bool) int
 	// optional: a malformed call (variant) that the wrapper must refuse with an error and without
 	// any effect on the executor; returns whether it was refused
@@ -210,6 +215,8 @@ type VerifRT struct {
 	clients  []*vClient
 	goids    map[int64]bool // goroutines of this instance's background flushers
 	bad      map[int64]bool
+	removed  []VerifRemoved
+	agg      *vAgg
 }
 
 // Park registers a batch whose callback has started and blocks until the controller
@@ -497,6 +504,7 @@ func (rt *VerifRT) builtin() *VerifHooks {
 	switch rt.in.Kind {
 	case "bulk":
 		be := NewBulkExecutor(rt.callback, WithBulkTasks(rt.in.Maxw), WithBulkInterval(iv))
+		vSpyOn(be.executor, rt, vSliceIDs)
 		return &VerifHooks{PE: be.executor,
 			Add: func(id int64, w int) { be.Add(id) },
 			Flush: func(v int) {
@@ -518,6 +526,7 @@ func (rt *VerifRT) builtin() *VerifHooks {
 			Size:  func() int { return len(be.container.tasks) }}
 	case "chunk":
 		ce := NewChunkExecutor(rt.callback, WithChunkBytes(rt.in.Maxw), WithFlushInterval(iv))
+		vSpyOn(ce.executor, rt, vSliceIDs)
 		return &VerifHooks{PE: ce.executor,
 			Add: func(id int64, w int) { ce.Add(id, w) },
 			Flush: func(v int) {
@@ -540,6 +549,12 @@ func (rt *VerifRT) builtin() *VerifHooks {
 	case "bag":
 		vc := &vBagContainer{vContainer{maxw: rt.in.Maxw, exec: rt.callback}}
 		pe := NewPeriodicalExecutor(iv, vc)
+		vSpyOn(pe, rt, func(v any) []int64 {
+			if b, ok := v.(*vBag); ok && b != nil {
+				return vIDs(b.ids)
+			}
+			return nil
+		})
 		return &VerifHooks{PE: pe,
 			Add:   func(id int64, w int) { pe.Add(vTask{id: id, w: w}) },
 			Flush: func(int) { pe.Flush() }, Wait: func(int) { pe.Wait() }, Sync: pe.Sync,
@@ -547,10 +562,25 @@ func (rt *VerifRT) builtin() *VerifHooks {
 	case "periodical":
 		vc := &vContainer{maxw: rt.in.Maxw, exec: rt.callback}
 		pe := NewPeriodicalExecutor(iv, vc)
+		vSpyOn(pe, rt, vSliceIDs)
 		return &VerifHooks{PE: pe,
 			Add:   func(id int64, w int) { pe.Add(vTask{id: id, w: w}) },
 			Flush: func(int) { pe.Flush() }, Wait: func(int) { pe.Wait() }, Sync: pe.Sync,
 			Tasks: func() []int64 { return vIDs(vc.tasks) }, Size: func() int { return vc.size }}
+	case "agg":
+		ac := &vAgg{rt: rt, shape: rt.in.Shape, empty: rt.in.Empty, maxw: rt.in.Maxw}
+		rt.agg = ac
+		pe := NewPeriodicalExecutor(iv, ac)
+		return &VerifHooks{PE: pe,
+			Add:   func(id int64, w int) { pe.Add(vTask{id: id, w: w}) },
+			Flush: func(int) { pe.Flush() }, Wait: func(int) { pe.Wait() }, Sync: pe.Sync,
+			Tasks: func() []int64 { return append([]int64{}, ac.ids...) }, Size: func() int { return ac.size },
+			CanAddTask: func(id int64, w int) bool {
+				if (ac.shape == "int" || ac.shape == "bool") && (w < 1 || ac.maxw > 1) {
+					return false // these containers hold one task at a time
+				}
+				return vAggAccepts(ac.shape, ac.empty, id)
+			}}
 	}
 	return nil
 }
@@ -729,11 +759,14 @@ func VerifRunCase(c VerifCase, factory VerifFactory) (out VerifOut) {
 				continue
 			}
 			ci, id, w := int(vNum(op[2])), vNum(op[3]), int(vNum(op[4]))
+			if rt.hooks.CanAddTask != nil && !rt.hooks.CanAddTask(id, w) {
+				continue
+			}
 			start(rt, ci, func() { rt.hooks.Add(id, w) })
 			okRun = settle([]any{"add", rt.idx, ci, id, w})
 		case "addn": // n Adds of weight 1 in a row by one client (ids first, first+1, ...)
 			rt := inst(op[1])
-			if rt == nil || (rt.hooks.CanAdd != nil && !rt.hooks.CanAdd()) {
+			if rt == nil || (rt.hooks.CanAdd != nil && !rt.hooks.CanAdd()) || rt.hooks.CanAddTask != nil {
 				continue
 			}
 			ci, first, n := int(vNum(op[2])), vNum(op[3]), int(vNum(op[4]))
@@ -861,6 +894,11 @@ func VerifRunCase(c VerifCase, factory VerifFactory) (out VerifOut) {
 	}
 	out.ShutStarted = r.shutStart
 	out.ShutDone = r.shutDone.Load()
+	for _, rt := range r.rts {
+		rt.mu.Lock()
+		out.Removed = append(out.Removed, append([]VerifRemoved{}, rt.removed...))
+		rt.mu.Unlock()
+	}
 	// clean-up (not part of the observed history): let everything finish and make
 	// the flushers quit so that no goroutine of this case survives
 	timex.SinceHook.Store(nil)
